@@ -88,11 +88,16 @@ func (C16) Gen(r *simrt.RNG, tier string) core.Case {
 			}
 		}
 	}
-	// same name (or type), other subtype: a distinct key that must not disturb the exact one
+	// same name (or type), other subtype (or none where the parameter has one, one where
+	// it has none): a distinct key that must not disturb the exact one
 	for _, sl := range t.In {
-		if sl.Sub != "" && r.Chance(1, 2) {
+		if (sl.Sub != "" && r.Chance(1, 2)) || (sl.Sub == "" && r.Chance(1, 4)) {
 			l := sl.Label
-			if l.Sub == world.Subs[0] {
+			if l.Sub == "" {
+				l.Sub = world.Subs[r.Intn(2)]
+			} else if r.Chance(1, 3) {
+				l.Sub = ""
+			} else if l.Sub == world.Subs[0] {
 				l.Sub = world.Subs[1]
 			} else {
 				l.Sub = world.Subs[0]
@@ -269,8 +274,8 @@ func c16Valid(w world.World) bool {
 				if s.Label == a.Label {
 					ok = true
 				}
-				if s.Sub != "" && a.Label.Sub != "" && a.Label.Sub != s.Sub && s.Name == a.Label.Name && s.Type == a.Label.Type {
-					ok = true
+				if a.Label.Sub != s.Sub && s.Name == a.Label.Name && s.Type == a.Label.Type {
+					ok = true // same name and type under another subtype, or with/without one
 				}
 			}
 			if !ok {
